@@ -69,13 +69,22 @@ def run(tier):
         with lock:
             return [intern(r) for r in rows]
 
+    NAMES = [None, {1: "yarn.lock", 2: "Cargo.lock", 3: "x.lock"}, {1: "README.txt", 2: "CMakeLists.txt", 3: "notes.txt"},
+             {1: "Makefile", 2: "makefile.rs", 3: "a.mk"}, {1: "a.h", 2: "b.h", 3: "c.hpp"}]
+
     def one(job):
         parts, mode = job
         args, rs = MODES[mode]
         outs, k0 = [], 0
         datas = []
+        # per-pair skin: hunk positions (small / beyond 10^4: gutter width) and, where rows are not parsed,
+        # file names whose language is decided by the whole name or by the extension
+        r3 = random.Random(core.seed() * 131 + __import__("zlib").crc32(json.dumps(parts).encode()) % 100003)
+        skin = {"start": r3.choice([10, 10, 9990, 123456])}
+        if not rs and r3.random() < 0.6:
+            skin["names"] = r3.choice(NAMES[1:])
         for h in parts:
-            data, texts = gitskin.concretise(h, k0=k0)
+            data, texts = gitskin.concretise(h, k0=k0, skin=skin)
             k0 += len(h)
             datas.append(data)
             outs.append(core.run_delta(args, data))
@@ -94,7 +103,7 @@ def run(tier):
         events.append({"run": i, "kind": "equal", "x": rows_of(r1.out), "y": rows_of(r2.out), "z": [], "ex": []})
         if MODES[mode][1]:
             h = [l for p in parts for l in p]
-            data, texts = gitskin.concretise(h)
+            data, texts = gitskin.concretise(h, skin={"start": 10})
             ev, rows = stream.run_event(len(sevents), h, texts, r1, {"keep": False, "tabs": 8, "colorOnly": False,
                                                                     "buf": 32, "hhFile": True}, skin={}, data=data)
             sevents.append(ev)
